@@ -3,7 +3,7 @@
    prod, sumbool map to OCaml's; N, Z, positive, nat stay inductive. *)
 From Coq Require Extraction.
 From Coq Require ExtrOcamlBasic.
-From TP Require Import Base Elem Term Screen VT Parser Markup Order Oracle Proto Show.
+From TP Require Import Base Elem Term Screen VT Parser Markup Order Oracle Proto Show Strings.
 
 Extraction Language OCaml.
 Extraction "extracted/model.ml"
@@ -23,4 +23,6 @@ Extraction "extracted/model.ml"
   oracle_run wf_op_b wf_elem wf_title displayable
   digit10 digit16 mstep
   enc tok wf_item adjacency_ok enc_all
-  show_stream.
+  show_stream
+  s_of_cstr s_of_bytes s_of_bytes_attr s_fill s_of_elems s_append_elem s_append s_insert s_insert_range
+  s_erase_all s_erase_from s_erase_range s_set.
